@@ -26,7 +26,8 @@ pub fn comment<'a>(arena: &'a Arena<'a>, node: &'a SyntaxNode) -> ArenaDoc<'a> {
 }
 
 pub fn line_comment<'a>(arena: &'a Arena<'a>, node: &'a SyntaxNode) -> ArenaDoc<'a> {
-    arena.text(node.text().as_str())
+    // Trailing blanks are stripped from the output anyway; they must not count for the width.
+    arena.text(node.text().as_str().trim_end())
 }
 
 /// It does not add a hardline to the doc.
